@@ -184,8 +184,12 @@ struct net : public verif::listener
     lit L(const std::string &s)
     {
         if (s[0] == '!')
-            return !lits.at(s.substr(1));
-        return lits.at(s);
+            return !L(s.substr(1));
+        if (const auto it = lits.find(s); it != lits.cend())
+            return it->second;
+        if (s.size() > 1 && s[0] == 'b' && s.find_first_not_of("0123456789", 1) == std::string::npos)
+            return lit(static_cast<var>(std::stoul(s.substr(1)))); // raw library literal (used by twin networks)
+        throw std::out_of_range("unknown literal " + s);
     }
     std::vector<lit> Ls(const std::vector<std::string> &t, size_t from)
     {
@@ -466,7 +470,7 @@ struct net : public verif::listener
         }
         else if (op == "oeq")
             reg(t[1], ov.new_eq(ovars.at(t[2]), ovars.at(t[3])));
-        else if (op == "assume" && !lits.count(t[1][0] == '!' ? t[1].substr(1) : t[1]))
+        else if (op == "assume" && !lits.count(t[1][0] == '!' ? t[1].substr(1) : t[1]) && (t[1][0] == '!' ? t[1][1] : t[1][0]) != 'b')
             res = "\"skip-unknown\""; // the request that should have defined the literal was rejected
         else if (op == "assume")
         {
@@ -487,7 +491,12 @@ struct net : public verif::listener
             }
         }
         else if (op == "next")
+        {
+            const bool was_root = sat.root_level();
             res = sat.next() ? "true" : "false";
+            if (!was_root && res == "false")
+                dead = true; // the no-good made the network inconsistent at root level
+        }
         else if (op == "propagate")
             res = sat.propagate() ? "true" : "false";
         else if (op == "simplify")
@@ -498,12 +507,41 @@ struct net : public verif::listener
                 res = sat.simplify_db() ? "true" : "false";
         }
         else if (op == "check")
+        {
+            const size_t lvl = sat.decision_level();
             res = sat.check(Ls(t, 1)) ? "true" : "false";
+            if (res == "false" && sat.decision_level() < lvl)
+                dead = true; // check() does not tell whether the refutation reached root level: the standing decisions are gone, we stop conservatively
+        }
         else if (op == "root")
         { // pops to root level
             while (!sat.root_level())
                 sat.pop();
             res = "true";
+        }
+        else if (op == "fill")
+        { // assumes unassigned variables (pseudo-random polarity) until every variable is assigned or an assumption is refused
+            unsigned long x = t.size() > 1 ? std::stoul(t[1]) : 1;
+            size_t steps = 0;
+            bool ok = true;
+            while (ok && steps < 200)
+            {
+                var pick = 0;
+                for (var v = 1; v < n_sat(); ++v)
+                    if (sat.value(v) == Undefined)
+                    {
+                        pick = v;
+                        break;
+                    }
+                if (!pick)
+                    break;
+                x = x * 6364136223846793005UL + 1442695040888963407UL;
+                ok = sat.assume(lit(pick, (x >> 33) & 1));
+                ++steps;
+            }
+            if (!ok && sat.root_level())
+                dead = true;
+            res = std::string("{\"ok\":") + (ok ? "true" : "false") + ",\"steps\":" + std::to_string(steps) + "}";
         }
         else if (op == "enum")
         {
